@@ -203,3 +203,15 @@ Proof.
         -- apply in_app_or in Hk'. destruct Hk' as [Hk'|[<-|[]]]; [left; exact Hk'|right; left; reflexivity].
         -- right. right. exact Hk'.
 Qed.
+
+(* the Inode made for a record of an empty file is in the walk's table *)
+Lemma bp_named_covers0 nx tbl nm i st : forall recs seen, In (LFile nm i st) recs ->
+  has_ino i tbl = true -> len_of i tbl = 0 -> In (bp_fresh nx i st, 0) (bp_named_tbl nx tbl recs seen).
+Proof.
+  induction recs as [|n r IH]; intros seen H Hh Hl; [destruct H|]. destruct H as [->|H].
+  - cbn [bp_named_tbl]. rewrite Hh, Hl. cbn [negb Z.eqb]. left. reflexivity.
+  - destruct n as [nm' i' st'|nm' dl kids]; [|apply IH; assumption]. cbn [bp_named_tbl].
+    destruct (has_ino i' tbl); cbn [negb]; [|apply IH; assumption].
+    destruct (len_of i' tbl =? 0); [right; apply IH; assumption|].
+    destruct (mem i' seen); [apply IH; assumption|right; apply IH; assumption].
+Qed.
